@@ -320,7 +320,7 @@ def run_c04(ctx):
             d2 = desc_of(m2)
             df = describe.diff(d0, d2)
             if df:
-                raise Violation("C04/round-trip-differs/" + c11path(df) + feature(d0, df), {"diff": df, "zip": is_zip})
+                raise Violation("C04/round-trip-differs/" + c11path(df) + feature(d0, df, d2), {"diff": df, "zip": is_zip})
             w2 = machine.World.__new__(machine.World)
             w2.m, w2.name, w2.handles = m2, m2.name, {}
             ans2 = ses.answers(w2, ref)
@@ -340,8 +340,16 @@ def run_c04(ctx):
     ctx.nsteps = len(chain)
 
 
-def feature(desc, df):
+def feature(desc, df, other=None):
     """Narrow the signature of a round-trip difference by what kind of member it concerns."""
+    tag = _feature(desc, df)
+    if tag == "/object-value" and other is not None and _feature(other, df) == "/derived-auto-reference-bound-to-own-child-space":
+        # (the same thing seen from the model that was read: re-derived from scratch it binds to the child space)
+        return "/derived-auto-reference-bound-to-own-child-space"
+    return tag
+
+
+def _feature(desc, df):
     path = df.split(":")[0].strip(".").split(".")
     node = desc
     trail = []
@@ -359,7 +367,15 @@ def feature(desc, df):
             return "/derived-cells" if n["derived"] else "/defined-cells"
         if isinstance(n, dict) and "mode" in n and "value" in n:
             v = n["value"]
-            return "/object-value" if isinstance(v, str) and v.startswith("<") else "/literal-value"
+            if isinstance(v, str) and v.startswith("<"):
+                # the space that holds the reference: names after each "spaces" segment
+                owner = ".".join(path[i + 1] for i in range(len(path) - 1) if path[i] == "spaces")
+                if (n.get("derived") and n.get("mode") == "auto" and v.startswith("<UserSpace ")
+                        and v[len("<UserSpace "):-1].startswith(owner + ".")):
+                    # a DERIVED auto reference that the live model has bound to a child space of the deriving space
+                    return "/derived-auto-reference-bound-to-own-child-space"
+                return "/object-value"
+            return "/literal-value"
     return ""
 
 
